@@ -57,12 +57,16 @@ TName(gg, t) == GR(gg).tnames[t - TB + 1]
 
 WsSet(o) == IF ~o.ws THEN {} ELSE IF o.nl THEN {9, 10, 11, 12, 13, 32} ELSE {9, 11, 12, 13, 32}
 
-\* source_point::update over inp[(a+1)..b]  (0-based half-open [a, b))
+\* source_point::update over inp[(a+1)..b]  (0-based half-open [a, b)); chunked recursion (depth stays small for long lexemes)
+RECURSIVE SpUpdC(_, _, _, _, _, _)
+SpUpdC(b, a, e, l, c, fuel) == IF a >= e \/ fuel = 0 THEN <<l, c, a>>
+                               ELSE IF b[a + 1] = 10 THEN SpUpdC(b, a + 1, e, l + 1, 1, fuel - 1) ELSE SpUpdC(b, a + 1, e, l, c + 1, fuel - 1)
 RECURSIVE SpUpd(_, _, _, _, _)
-SpUpd(b, a, e, l, c) == IF a >= e THEN <<l, c>>
-                        ELSE IF b[a + 1] = 10 THEN SpUpd(b, a + 1, e, l + 1, 1) ELSE SpUpd(b, a + 1, e, l, c + 1)
+SpUpd(b, a, e, l, c) == LET r == SpUpdC(b, a, e, l, c, 256) IN IF r[3] >= e THEN <<r[1], r[2]>> ELSE SpUpd(b, r[3], e, r[1], r[2])
+RECURSIVE SkipWsC(_, _, _, _)
+SkipWsC(b, p, ws, fuel) == IF fuel > 0 /\ p < Len(b) /\ b[p + 1] \in ws THEN SkipWsC(b, p + 1, ws, fuel - 1) ELSE p
 RECURSIVE SkipWs(_, _, _)
-SkipWs(b, p, ws) == IF p < Len(b) /\ b[p + 1] \in ws THEN SkipWs(b, p + 1, ws) ELSE p
+SkipWs(b, p, ws) == LET q == SkipWsC(b, p, ws, 256) IN IF q = p + 256 THEN SkipWs(b, q, ws) ELSE q
 
 ErrTokBytes == <<60,101,114,114,111,114,95,114,101,99,111,118,101,114,121,95,116,111,107,101,110,62>>
 
